@@ -45,6 +45,24 @@ CHECKS = {
          "single-fault corruptions of generated documents (30 fault kinds) and token-level multi-fault mutations against "
          "the implementation and reports any undeclared exception as a violation with the document as replay.",
     design="DESIGN.md 7 (C16)", technique="Coq proof over the regenerated global-reference table; fault-stream exploration of the reader as support"),
+ "C10": dict(
+    text="Proof: for every kind (complexes/strands, macrostates, reactions over complexes and over macrostates, domains) the "
+         "operators computed from canonical forms are coherent: == iff equal canonical forms, equal objects hash equally for "
+         "ANY hash function of the canonical form, != is the negation, <= is total and transitive, < transitive and "
+         "irreflexive, the four order operators are mutually consistent, == iff equivalence (lexicographic orders built "
+         "with good_lex/good_pair over code-point strings). The model is tied to the code by running the six operators, "
+         "hash(), set() and sorted() on real objects from generated populations (three registries, structure-only and "
+         "type-only differences) and comparing with the model evaluated on the canonical forms the objects report. "
+         "Partial: read-only attributes and copied views are runtime behaviour, observed on every run, not a theorem.",
+    design="DESIGN.md 7 (C10)", technique="Coq proof (total-order laws for lexicographic comparisons) + model/implementation correspondence"),
+ "C11": dict(
+    text="Proof: MacrostateS / ReactionS identifiers (stable insertion sort by canonical form = sorted(key=...)) are invariant "
+         "under every permutation of the arguments given the singleton invariant on the members (Permutation l l' -> same "
+         "canonical form, name, stored members), members are stored sorted, the automatic macrostate name is that of the "
+         "canonically smallest member, the representative carries the requested name, equal canonical forms imply equal "
+         "member multisets and type. Tied to the code by creating the same macrostate/reaction in two permutations on real "
+         "objects (identity, canonical form, names, arity, len) and comparing with the model.",
+    design="DESIGN.md 7 (C11)", technique="Coq proof (sorted permutation uniqueness) + model/implementation correspondence"),
 }
 
 NOT_YET = {}
